@@ -14,7 +14,7 @@ Local Open Scope Z_scope.
 Record res := mkres { r_name : bs; r_removed : bool; r_pos : Z; r_nt : bs; r_codon : bs; r_aa : bs }.
 
 Record case := mk {
-  k_kind : Z;                      (* 0 Phase, 1 SeqBag.LongestORF *)
+  k_kind : Z;                      (* 0 Phase, 1 SeqBag.LongestORF, 2 command line (k_err = the relation fails) *)
   k_seqs : brows;
   k_orfs : option brows;           (* nucleotide reference ORFs, None = longest ORF of the input *)
   k_translate : bool; k_reverse : bool; k_cutend : bool; k_code : Z;
@@ -55,6 +55,7 @@ Definition seq_strands (reverse : bool) (s : list byte) : list (list byte) := st
 
 (* LongestORF reproduces the code model exactly *)
 Definition model_ok (c : case) : bool :=
+  if Z.eqb (k_kind c) 2 then true else   (* a command-line relation checked by the harness *)
   if Z.eqb (k_kind c) 1 then
     match bag_longest_orf (k_reverse c) (map snd (unrows (k_seqs c))), k_orf c with
     | Some o, Some o' => bytes_eqb o (unbs o')
@@ -103,6 +104,7 @@ Definition spec_check (c : case) : option bool :=
   let seqs := unrows (k_seqs c) in
   let unchanged := rows_eqb (unrows (k_after c)) seqs in
   if negb (forallb (fun r => plain_nt_seq (snd r)) seqs) then None else
+  if Z.eqb (k_kind c) 2 then Some (negb (k_err c)) else   (* goalign phasent: --nt-output translates to --aa-output *)
   if Z.eqb (k_kind c) 1 then
     (* the ORF returned is an ORF of some input strand and none is longer *)
     let ss := flat_map (seq_strands (k_reverse c)) (map snd seqs) in
